@@ -69,6 +69,13 @@ def catalogue(features=()):
                      F('unord', skip=1, cont='Vec'), F('unord', cont='Vec')]))
     C.append(struct([F('map', skip=1, mode='kv', cont='HashMap'), F('map', mode='kv', cont='HashMap'),
                      F('recmap', skip=1, mode='kv', inner=l3, cont='HashMap'), F('recmap', mode='kv', inner=l3, cont='HashMap'), F('plain')]))
+    # types whose `==` is not identity (f64: -0.0 == 0.0, NaN != NaN): plain fields, enum payloads, inside nested values
+    FL = lambda: struct([F('plain', rty='f64'), F('plain'), F('plain', rty='f64', skip=1)])
+    C.append(struct([F('plain', rty='f64'), F('plain')]))
+    C.append(enum([('unit',), ('ftuple', 1), ('tuple', 1), ('ftuple', 2)]))
+    C.append(struct([F('recurse', inner=FL()), F('ropt', inner=FL()), F('plain', rty='f64')]))
+    C.append(struct([F('recmap', mode='kv', inner=FL(), cont='HashMap'), F('recmap', mode='ko', inner=FL(), cont='HashMap'),
+                     F('plain', rty='enum', en=enum([('unit',), ('ftuple', 1)]))]))
     # all kinds in one struct (the 14-field shape)
     C.append(struct([F('plain'), F('plain', rty='Option<u32>'), F('plain', skip=1), F('recurse', inner=LEAF2()), F('ropt', inner=LEAF()),
                      F('ordered', cont='Vec'), F('unord', cont='Vec'), F('unord', cont='HashSet'), F('map', mode='kv', cont='HashMap'),
@@ -90,7 +97,7 @@ def random_shape(rnd, depth=0, features=()):
         if skip:
             fields.append(F('plain', skip=1)); continue
         if k == 'plain':
-            fields.append(F('plain', rty=rnd.choice(['u32', 'u32', 'Option<u32>'])))
+            fields.append(F('plain', rty=rnd.choice(['u32', 'u32', 'Option<u32>', 'f64'])))
         elif k == 'ordered':
             fields.append(F('ordered', cont=rnd.choice(['Vec', 'LinkedList'] + ([] if nano else ['VecDeque']))))
         elif k == 'unord':
@@ -158,6 +165,7 @@ def rust_field_type(f, elem='u32'):
     k = f['k']
     if k == 'plain':
         r = f.get('rty', 'u32')
+        if r == 'f64': return 'f64'
         if r == 'struct': return f['inner']['name']
         if r == 'enum': return f['en']['name']
         return r if r != 'u32' else elem
@@ -206,6 +214,7 @@ def gen_types(sh, out, seen):
         for j, v in enumerate(sh['variants']):
             if v[0] == 'unit': body.append(f'    V{j},')
             elif v[0] == 'tuple': body.append(f'    V{j}(' + ', '.join(['u32'] * v[1]) + '),')
+            elif v[0] == 'ftuple': body.append(f'    V{j}(' + ', '.join(['f64'] * v[1]) + '),')
             else: body.append(f'    V{j} {{ ' + ', '.join(f'a{q}: u32' for q in range(v[1])) + ' },')
         der = DERIVES if sh.get('derive_diff', True) else PLAIN_DERIVES
         out.append(der + f'pub enum {sh["name"]} {{\n' + '\n'.join(body) + '\n}\n')
@@ -215,6 +224,11 @@ def gen_types(sh, out, seen):
             if v[0] == 'unit':
                 arms_from.append(f'            {j} => Some({sh["name"]}::V{j}),')
                 arms_to.append(f'            {sh["name"]}::V{j} => tag("e", vec![n({j})]),')
+            elif v[0] == 'ftuple':
+                args = ', '.join(f'<f64 as Wire>::from_sx(l.get({2 + q})?)?' for q in range(v[1]))
+                arms_from.append(f'            {j} => Some({sh["name"]}::V{j}({args})),')
+                pats = ', '.join(f'x{q}' for q in range(v[1]))
+                arms_to.append(f'            {sh["name"]}::V{j}({pats}) => tag("e", vec![n({j}), ' + ', '.join(f'x{q}.to_sx()' for q in range(v[1])) + ']),')
             elif v[0] == 'tuple':
                 args = ', '.join(f'l[{2 + q}].nat()? as u32' for q in range(v[1]))
                 arms_from.append(f'            {j} => Some({sh["name"]}::V{j}({args})),')
@@ -352,11 +366,30 @@ def gen_rust(shapes, with_setters=False):
 
 # ------------------------------------------------------------------ values
 
+NAN, NEGZ = 999999, 1000001      # protocol codes of f64 NaN and -0.0 (Derive.nanCode / Derive.negZero)
+
+
+def gen_f64(rnd):
+    r = rnd.random()
+    if r < 0.03: return NAN
+    if r < 0.30: return NEGZ
+    if r < 0.60: return 0
+    return rnd.randrange(1, 4)
+
+
+def eqf(a, b):
+    """`==` of f64 on protocol codes"""
+    a, b = int(a), int(b)
+    return a != NAN and b != NAN and (0 if a == NEGZ else a) == (0 if b == NEGZ else b)
+
+
 def gen_value(sh, rnd, small=True):
     if sh['t'] == 'enum':
         j = rnd.randrange(len(sh['variants']))
         v = sh['variants'][j]
         n = 0 if v[0] == 'unit' else v[1]
+        if v[0] == 'ftuple':
+            return ['e', j] + [gen_f64(rnd) for _ in range(n)]
         return ['e', j] + [rnd.randrange(3) for _ in range(n)]
     return ['s'] + [gen_field(f, rnd) for f in sh['fields']]
 
@@ -366,6 +399,7 @@ def gen_field(f, rnd):
     if k == 'plain':
         r = f.get('rty', 'u32')
         if r == 'u32': return rnd.randrange(4)
+        if r == 'f64': return gen_f64(rnd)
         if r == 'Option<u32>': return 'none' if rnd.random() < 0.4 else ['some', rnd.randrange(3)]
         if r == 'struct': return gen_value(f['inner'], rnd)
         if r == 'enum': return gen_value(f['en'], rnd)
@@ -391,7 +425,12 @@ def mutate_value(sh, v, rnd, p=0.35, only_skipped=False):
     """a mutation of v touching some fields (leader's next state)"""
     if sh['t'] == 'enum':
         if only_skipped:
-            return v          # an enum has no skipped part: an equivalent follower holds the same value
+            # an enum has no skipped part: an equivalent follower holds a value that is `==`: the same value, or one that
+            # differs in the sign of a float zero
+            var = sh['variants'][int(v[1])]
+            if var[0] == 'ftuple':
+                return list(v[:2]) + [(rnd.choice([0, NEGZ]) if int(x) in (0, NEGZ) else x) for x in v[2:]]
+            return v
         return gen_value(sh, rnd) if rnd.random() < p else v
     out = ['s']
     for f, x in zip(sh['fields'], v[1:]):
@@ -406,6 +445,10 @@ def mutate_value(sh, v, rnd, p=0.35, only_skipped=False):
 
 def mutate_inner(f, x, rnd, only_skipped):
     k = f['k']
+    if k == 'plain' and f.get('rty') == 'f64' and int(x) in (0, NEGZ):
+        return rnd.choice([0, NEGZ])          # `==`-equal, not identical
+    if k == 'plain' and f.get('rty') == 'enum':
+        return mutate_value(f['en'], x, rnd, only_skipped=True)
     if k == 'recurse' or (k == 'plain' and f.get('rty') == 'struct'):
         return mutate_value(f['inner'], x, rnd, only_skipped=True) if k == 'recurse' else x
     if k == 'ropt' and x != 'none':
@@ -498,7 +541,7 @@ def canon_field(f, x, ignore_skipped=False):
     k = f['k']
     if k == 'plain':
         r = f.get('rty', 'u32')
-        if r == 'u32': return int(x)
+        if r in ('u32', 'f64'): return int(x)
         if r == 'Option<u32>': return 'none' if x == 'none' else ('some', int(x[1]))
         if r == 'struct': return canon_value(f['inner'], x)
         if r == 'enum': return canon_value(f['en'], x)
@@ -513,16 +556,25 @@ def canon_field(f, x, ignore_skipped=False):
 
 # --- Debug-rendered values (from the oracle's generic Debug reader) -> protocol values
 
+def dbg_f64(d):
+    """Debug rendering of an f64 -> protocol code"""
+    d = str(d)
+    if d == 'NaN': return NAN
+    if d == '-0.0': return NEGZ
+    return int(float(d))
+
+
 def dbg_value(sh, d):
     """d: Sx produced by dbg() for a Rust value of shape sh -> protocol value"""
     if sh['t'] == 'enum':
         if isinstance(d, str):
             return ['e', int(d[1:])]
         j = int(d[0][1:])
+        conv = dbg_f64 if sh['variants'][j][0] == 'ftuple' else int
         args = []
         for a in d[1:]:
-            if isinstance(a, list) and a and a[0] == 'kv': args.append(int(a[2]))
-            else: args.append(int(a))
+            if isinstance(a, list) and a and a[0] == 'kv': args.append(conv(a[2]))
+            else: args.append(conv(a))
         return ['e', j] + args
     fields = {kv[1]: kv[2] for kv in d[1:] if isinstance(kv, list) and kv and kv[0] == 'kv'}
     return ['s'] + [dbg_field(f, fields[f'f{i}']) for i, f in enumerate(sh['fields'])]
@@ -533,6 +585,7 @@ def dbg_field(f, d):
     if k == 'plain':
         r = f.get('rty', 'u32')
         if r == 'u32': return int(d)
+        if r == 'f64': return dbg_f64(d)
         if r == 'Option<u32>': return 'none' if d == 'None' else ['some', int(d[1])]
         if r == 'struct': return dbg_value(f['inner'], d)
         if r == 'enum': return dbg_value(f['en'], d)
